@@ -355,26 +355,18 @@ def wrapup_rule(repo, res):
 
     ok, where, conds = out_target_scaled(UfuncAnchors(repo))
     res.check(ok, "out-target-scaled", where, "with out= given and a simplification coefficient != 1 (e.g. km/m) the out target is not multiplied by the coefficient on some path: the buffer's numbers depend on the units the operands were written in", "multiply(out, mul, out=out) on every such path", conds, path=conds, rid=r4)
-    # every definition of `unit` is a unit-rule result
-    allowed = (
-        re.compile(r"^self\._ufunc_registry\[ufunc\]\(u\)\[1\]$"),
-        re.compile(r"^unit_operator\(u0, u1\)\[1\]$"),
-        re.compile(r"^_apply_power_mapping\(ufunc, u, .*\)\[1\]$"),
-        re.compile(r"^Unit\(registry=unit\.registry\)$"),
-        re.compile(r"^inputs\[0\]\.units$"),
-    )
-    defs = []
-    for n in ast.walk(fn.node):
-        if isinstance(n, ast.Assign):
-            t = n.targets[0]
-            if isinstance(t, ast.Name) and t.id == "unit":
-                defs.append((n, norm(n.value)))
-            elif isinstance(t, ast.Tuple):
-                for i, el in enumerate(t.elts):
-                    if isinstance(el, ast.Name) and el.id == "unit":
-                        defs.append((n, f"{norm(n.value)}[{i}]"))
-    for n, txt in defs:
-        res.check(any(p.match(txt) for p in allowed), f"unit-def:{txt[:50]}", fn.where(n), "the unit attached to the result must come from the ufunc's unit rule", found=txt, rid=r4)
+    # every definition of `unit` is a unit-rule result (element 1), the dimensionless reset of the ratio shortcut, or
+    # the first input's unit in the clip arm
+    from rules.ufunc import unit_rule_results
+
+    ua = UfuncAnchors(repo)
+    n_defs = 0
+    for node, kind, detail in unit_rule_results(ua, "unit"):
+        n_defs += 1
+        ok = (kind == "rule" and detail[0] == 1 and detail[1] in (["u"], ["u0", "u1"])) or (kind == "power-mapping" and detail[0] == 1 and detail[1].get("in_unit") == "u") or (kind == "reset" and detail in ("Unit(registry=unit.registry)", "inputs[0].units"))
+        res.check(ok, f"unit-def:{kind}:{str(detail)[:40]}", fn.where(node), "the unit attached to the result must come from the ufunc's unit rule", found=(kind, detail), rid=r4)
+    if n_defs < 4:
+        raise AnalysisError(f"{fn.where()}: definitions of `unit` not found")
 
 
 MUTANTS = [
